@@ -284,7 +284,9 @@ def unit_bounded_paths(eng):
     including source file, an absolute one is used as written - against an independent few-line reference"""
     rels = ["out.bin", "sub/x.raw", "./a", "../up.bin", "a/../b", "/abs/x.bin", "/", "x//y", "dir/", "\u0444.bin", "a b.wav",
             # absolute paths that are not in normal form name the same file as their normal form
-            "/d/sub/../x.bin", "/d//x", "/d/./x.wav", "/a/b/c/../../y", "/./z"]
+            "/d/sub/../x.bin", "/d//x", "/d/./x.wav", "/a/b/c/../../y", "/./z",
+            # a name that merely begins with a tilde is an ordinary relative path unless it names a known device
+            "~image", "~rom out", "~a.bin", "x~y", "dir/~a", "~Image"]
     bases = ["/src/prog.mac", "prog.mac", "dir/prog.mac", "/a/b/../c/p.mac", "./p.mac"]
     code = "from pdpy11.devices import resolve_relative_path\nresult = [[r, b, resolve_relative_path(r, b)] for r in %r for b in %r]\n" % (rels, bases)
     res = driver.native([{"kind": "py", "code": code}], driver.tree_root())[0]
@@ -339,18 +341,18 @@ def unit_paths_rac(eng=None, tree=None):
     try:
         os.makedirs(os.path.join(d, "proj", "sub", "deep"))
         os.makedirs(os.path.join(d, "work"))
-        open(os.path.join(d, "proj", "main.mac"), "w").write('mov #1, r0\nmake_raw "main.raw"\n.include "sub/part.mac"\nmake_bin\n')
+        open(os.path.join(d, "proj", "main.mac"), "w").write('mov #1, r0\nmake_raw "main.raw"\n.include "sub/part.mac"\nmake_bin\nmake_raw "~image"\n')
         open(os.path.join(d, "proj", "sub", "part.mac"), "w").write('nop\nmake_raw "part.raw"\nmake_bin\n.include "deep/leaf.mac"\nmake_wav "tape.wav", "NAME"\n')
         open(os.path.join(d, "proj", "sub", "deep", "leaf.mac"), "w").write('halt\nmake_raw "../up.raw"\nmake_raw\n')
         p = subprocess.run(["/venv/bin/python", "-c", "import sys; sys.path.insert(0, %r); sys.argv = ['pdpy11'] + sys.argv[1:]; from pdpy11._cli import main_cli; main_cli()" % tree,
                             "../proj/main.mac"], cwd=os.path.join(d, "work"), capture_output=True, text=True, timeout=120)
         found = sorted(os.path.relpath(os.path.join(r_, f), d) for r_, _, fs in os.walk(d) for f in fs if not f.endswith(".mac"))
-        want = sorted(["proj/main.raw", "proj/main.bin", "proj/sub/part.raw", "proj/sub/part.bin", "proj/sub/tape.wav", "proj/sub/up.raw", "proj/sub/deep/leaf"])
+        want = sorted(["proj/~image", "proj/main.raw", "proj/main.bin", "proj/sub/part.raw", "proj/sub/part.bin", "proj/sub/tape.wav", "proj/sub/up.raw", "proj/sub/deep/leaf"])
         if p.returncode != 0 or found != want:
             bad.append(dict(exit=p.returncode, files_written=found, expected=want, stderr=p.stderr[-300:]))
         else:
             img = bytes.fromhex("c0150100" + "a000" + "0000")
-            for f in ("proj/main.raw", "proj/sub/part.raw", "proj/sub/up.raw", "proj/sub/deep/leaf"):
+            for f in ("proj/~image", "proj/main.raw", "proj/sub/part.raw", "proj/sub/up.raw", "proj/sub/deep/leaf"):
                 if open(os.path.join(d, f), "rb").read() != img:
                     bad.append(dict(file=f, holds=open(os.path.join(d, f), "rb").read().hex(), expected=img.hex()))
     finally:
